@@ -1,12 +1,12 @@
 """C13 — parse failures name the right error, file and line and return nothing partial."""
-import vlib, grammar, gens, gramlib
+import vlib, grammar, gens, gramlib, laylib
 from vlib import enc
 from checklib import Scenario
 
 RULE = ("conventional files (all delimiter/comment sets) with one malformed line of each kind (no closing bracket, text "
         "after the bracket, empty section name, key + text without delimiter under non-blank delimiter sets) injected at "
         "every position, followed by arbitrary further lines; expected code and 1-based line from the Coq spec (BadLines.v) "
-        "recomputed independently here; error location file; no object handed back; every error code's message and two "
+        "recomputed independently here; error location file; no object handed back; the same malformed lines inside the main file or a drop-in of layered reads (all four call shapes, with and without JOIN_SAME_ENTRIES / PYTHON_STYLE on the handle), compared with the model incl. error location; every error code's message and two "
         "out-of-range codes; missing file; distinct by bytes")
 
 CODES = {"nobracket": 9, "textafter": 12, "empty": 11, "nodelim": 10}
@@ -50,6 +50,14 @@ def gen(rng, tier):
         s = Scenario([gens.parse_cmd(0, b"/e/bad.conf", content, dl, cm), "dump 0", "groups 0"], tags=(kind,))
         s.want = "rc=%d line=%d file=%s" % (CODES[kind], len(ls) + 1, enc(b"/e/bad.conf"))
         out.append(s)
+    # the malformed file as the n-th file of a layered read, with and without the per-object parser options
+    for _ in range(n // 2):
+        st = laylib.setup(rng, mode=rng.choice([0, 1, 1, 2, 2, 3]), popts=True)
+        tree = laylib.inject_bad_line(rng, st["cmds"])
+        cmds = tree + st["pre"] + [st["read"], "errloc", "dump 0"]
+        if st["hist"]: cmds += [st["hist"], "errloc"]
+        k = len(tree) + len(st["pre"])
+        out.append(Scenario(cmds, [False] * k + [True] * (len(cmds) - k), tags=("layered",)))
     out.append(Scenario(["errstring %d" % i for i in range(0, 27)] + ["errstring 1000"], tags=("messages",)))
     return out
 
